@@ -36,6 +36,19 @@ def check(ctx, report):
     report.rule('C15.R3', 'the values ignored as GREASE are exactly the RFC 8701 values')
     from .c10 import grease_classification
     grease_classification(ctx, report, 'C15.R3')
+    # the fingerprint is a function of the message alone: nothing on the way from bytes to ja3 (hello, extensions, code point
+    # wrappers) keeps class level state, memo tables included (a memo keyed by part of the input answers for another input)
+    from .c19 import stateless_parsing
+    stateless_parsing(ctx, report, RULE='C15.R4', allow_memo=False,
+                      modules=('cryptoparser/tls/grease.py', 'cryptoparser/tls/subprotocol.py', 'cryptoparser/tls/extension.py',
+                               'cryptoparser/tls/ciphersuite.py', 'cryptoparser/tls/algorithm.py', 'cryptoparser/tls/version.py'),
+                      title='no function between the wire bytes of a client hello and ja3 writes class level state (memo tables included)')
+    # an extension parser that refuses content the protocol allows makes the generic array parser fall back to the unparsed
+    # class: the hello still parses, but the groups / point formats that ja3 reads from the typed extension are gone
+    from .. import rejections
+    rejections.check(ctx, report, 'C15.R5', 'tls', only='cryptoparser/tls/extension.py',
+                     title='extension parsers reject only what the specification tells them to (a refused extension silently becomes an unparsed one and drops out of the ja3 sections)')
+    report.floor('C15.R4', 150, 'functions of the TLS hello / extension / code point modules')
     c = model.cls('TlsHandshakeClientHello')
     f = c.methods.get('ja3')
     if f is None:
